@@ -194,6 +194,11 @@ def rulesets(tier):
     out.append(('terminal probabilities that sum to 0.9998', {'O1': [(.5, ['!']), (.3, ['#']), (.2, ['$'])], 'D1': [(.6, ['1']), (.3998, ['2'])],
                                                              'A1': t['A1'], 'C1': t['C1']},
                 [(.6, ['O1', 'D1']), (.4, ['A1', 'C1', 'D1'])]))
+    # a structure whose probability Python writes in exponent notation without a decimal point (seen once in 20 000 passwords)
+    rare = dict(D.TERMINALS[0])
+    rare.update(grammar=[('A1D1', .6), ('D2', .39995), ('D1', 5e-05)], prince=D.PRINCE)
+    types_l, base_l = R.ref_loaded(rare, False, False)
+    out.append(('a structure of probability 5e-05 loaded from disk', types_l, base_l, (rare, False, False)))
     out.append(('renormalised (skip_brute style)', {'D1': t['D1'], 'O1': t['O1']}, [(.3 / .7, ['D1']), (.25 / .7, ['O1']), (.15 / .7, ['D1', 'O1'])]))
     return out
 
